@@ -1,18 +1,20 @@
 from common import COMMON_TB
 
 CFG = {
-    "technique": "Lean 4 theorems about the query functions of the wtxmgr model on an arbitrary store + differential run: model = Ledger specification (details, ranges) = real wtxmgr.Store after every event, for sampled (thorough: all) transactions and boundary height ranges in both directions",
-    "level_text": "Proved for every store: TxDetails answers none exactly when no record with the hash exists; a reported transaction is shown as unconfirmed exactly when it is in the unconfirmed bucket, otherwise under the block of its latest mined record; every listed credit is a stored credit of that record with its amount/change flag and spent = (stored spent flag or spent by an unconfirmed tx); the unconfirmed batch of RangeTransactions follows the -1 rule in both directions and lists each unconfirmed record once.",
-    "level_note": "PARTIAL w.r.t. the Ledger: that the store's records are those of the ledger after every consistent history (refinement) is not proved; Ledger.details / Ledger.range are compared with the model and with the real Go answers at run time (oracle keys details, unique-details, range). Zero-value credits (former finding F6) fixed in /repo 7fa9939; reverting it yields VIOLATION key=rollback.zero-value-credit.",
+    "technique": "Lean 4 refinement proof: after every chain-consistent history TxDetails / RangeTransactions of the wtxmgr model answer the sentences of C13 read on the Ledger specification (theorems) + store-level theorems on arbitrary stores + differential run: model = Ledger specification (details, ranges) = real wtxmgr.Store after every event",
+    "level_text": "After every chain-consistent history of events (reorgs included): C13_once - TxDetails(h) succeeds, reports a record iff a known transaction has hash h, and the record is that transaction under its current block (height, hash, time) or as unconfirmed; C13_credit - it lists a credit for output i iff (t,i) is credited, once, with the output value, the change flag and spent <-> some known transaction spends it; C13_debit - a debit for input j iff the spent output is a credited output of a known transaction, once, with its value; C13_range - RangeTransactions(begin,end) reports the ledger batches in order (unconfirmed batch first/last by the -1 rule, blocks ascending/descending, each block batch = the block transactions in the order learned); C13_removed - when no known transaction has hash h (never arrived / abandoned / conflicted by a confirmation / depending on a disconnected coinbase) TxDetails says none and no range batch holds it. Store-level theorems on arbitrary stores kept.",
+    "level_note": "No _partial left for C13. Records inside one TxDetails answer are compared with the ledger as duplicate-free sets (store: bucket order; ledger: index order) and the unconfirmed batch of a range query up to order (store: hash order; ledger: arrival order); proving the bucket order would need sortedness invariants of the association lists, which the refinement does not carry. Zero-value credits (former finding F6) fixed in /repo 7fa9939.",
     "lean_props": ["BtcwVerif.Props.C13"],
     "engines": ["txstore"],
     "trusted_base": COMMON_TB + [
         "hand-written model BtcwVerif/Model/TxStore.lean of wtxmgr/{tx,unconfirmed,query,db}.go (tied by the differential run incl. full bucket dumps)",
         "BtcwVerif/Model/Ledger.lean (specification) is cross-checked against an independent Go implementation of the same sentences (harness/engines/txstore/oracle.go)",
         "bbolt cursor semantics (Seek/Next/Prev) as used by the block iterator; the model reproduces key order",
+        "Lemmas/Ref*.lean: simulation relation Good = WF2 (store invariant) + LWF (ledger well-formedness) + Refines (bucket by bucket: find? k = some v <-> (k,v) in the ledger's expectation Ledger.exp...; executable form refinesB evaluated by the driver after every event: ops refcheck / reffuzz)",
     ],
     "assumptions": [
         "labels, received times and scripts are not modelled (PreviousPkScripts is modelled as the list of previous outputs)",
         "the RangeTransactions callback never breaks early in the engine",
+        "chain consistency of the next event = TxStore.Consistent: Ledger.consistent (one block per height, a tx confirmed in one block, no confirmed double spend, no duplicated input, parents delivered first and confirmed at or below their children, coinbases never unconfirmed, redelivery allowed, conflicting unconfirmed txs may coexist) + Ledger.extra (an input naming a known tx names one of its outputs; no unconfirmed tx conflicting with a confirmed one is delivered; `abandoned` names the unconfirmed tx with that hash) + a tx has < 2^32-1 outputs and does not spend an output of itself",
     ],
 }
